@@ -340,4 +340,74 @@ MUTANTS = [
       "        finally:\n            self.pending_requests.discard(req)\n            self.overdue_requests.discard(req)\n", None),
     M("benign-retire-asserts-pending", FINDER, RETIRE_BODY,
       "        assert req in self.pending_requests\n" + RETIRE_BODY, None),
+    # ---- C46.10 (added after seeded change C46-H): no status call can die of a field that is still None
+    M("error-event-computes-segment-time", STATUS, SEG_EV_ERROR,
+      SEG_EV_ERROR + "        self._ev[\"segment_time\"] = when - self._ev[\"active_time\"]\n", "C46.10"),
+    M("error-event-elapsed-via-local-get-and-round", STATUS, SEG_EV_ERROR,
+      SEG_EV_ERROR + "        started = self._ev.get(\"active_time\")\n        self._ev[\"segment_time\"] = round(when - started, 3)\n",
+      "C46.10"),
+    M("error-event-elapsed-in-helper-method", STATUS, SEG_EV_ERROR,
+      "    def _elapsed(self, when):\n        return when - self._ev[\"active_time\"]\n\n"
+      + SEG_EV_ERROR + "        self._ev[\"segment_time\"] = self._elapsed(when)\n", "C46.10"),
+    M("error-event-elapsed-in-module-function", STATUS, SEG_EV_ERROR,
+      SEG_EV_ERROR + "        self._ev[\"segment_time\"] = _elapsed(self._ev, when)\n", "C46.10",
+      edits=[(STATUS, "class SegmentEvent:\n", "def _elapsed(ev, when):\n    return when - ev[\"active_time\"]\n\n\nclass SegmentEvent:\n")]),
+    M("error-event-hands-none-to-download-status", STATUS, SEG_EV_ERROR,
+      SEG_EV_ERROR + "        self._ds.note_failed_segment(when, self._ev[\"active_time\"])\n", "C46.10",
+      edits=[(STATUS, "    def update_last_timestamp(self, when):\n",
+              "    def note_failed_segment(self, when, active):\n        self.time_lost = when - active\n\n"
+              "    def update_last_timestamp(self, when):\n")]),
+    M("error-event-clamps-finish-to-activation", STATUS, SEG_EV_ERROR,
+      SEG_EV_ERROR + "        if when < self._ev[\"active_time\"]:\n            when = self._ev[\"active_time\"]\n", "C46.10"),
+    M("error-event-rounds-decode-time", STATUS, SEG_EV_ERROR,
+      SEG_EV_ERROR + "        self._ev[\"decode_time\"] = round(self._ev[\"decode_time\"], 6)\n", "C46.10"),
+    M("error-event-accumulates-into-none", STATUS, SEG_EV_ERROR,
+      SEG_EV_ERROR + "        self._ev[\"decode_time\"] += 0.0\n", "C46.10"),
+    M("activate-measures-queue-time-from-finish", STATUS,
+      "        if self._ev[\"active_time\"] is None:\n            self._ev[\"active_time\"] = when\n",
+      "        if self._ev[\"active_time\"] is None:\n            self._ev[\"active_time\"] = when\n"
+      "            self._ev[\"queue_time\"] = when - self._ev[\"finish_time\"]\n", "C46.10"),
+    M("benign-error-event-segment-time-guarded", STATUS, SEG_EV_ERROR,
+      SEG_EV_ERROR + "        if self._ev[\"active_time\"] is not None:\n"
+      "            self._ev[\"segment_time\"] = when - self._ev[\"active_time\"]\n", None),
+    M("benign-error-event-segment-time-either-branch", STATUS, SEG_EV_ERROR,
+      SEG_EV_ERROR + "        if self._ev[\"active_time\"] is None:\n            self._ev[\"segment_time\"] = None\n"
+      "        else:\n            self._ev[\"segment_time\"] = when - self._ev[\"active_time\"]\n", None),
+    M("benign-error-event-segment-time-conditional-expression", STATUS, SEG_EV_ERROR,
+      SEG_EV_ERROR + "        started = self._ev[\"active_time\"]\n"
+      "        self._ev[\"segment_time\"] = (when - started) if started is not None else None\n", None),
+    M("benign-error-event-segment-time-or-default", STATUS, SEG_EV_ERROR,
+      SEG_EV_ERROR + "        self._ev[\"segment_time\"] = when - (self._ev[\"active_time\"] or when)\n", None),
+    M("benign-error-event-segment-time-typeerror-handled", STATUS, SEG_EV_ERROR,
+      SEG_EV_ERROR + "        try:\n            self._ev[\"segment_time\"] = when - self._ev[\"active_time\"]\n"
+      "        except TypeError:\n            self._ev[\"segment_time\"] = None\n", None),
+    M("benign-error-event-time-since-request", STATUS, SEG_EV_ERROR,
+      SEG_EV_ERROR + "        self._ev[\"segment_time\"] = when - self._ev[\"start_time\"]\n", None),
+    M("benign-error-event-activates-itself-first", STATUS, SEG_EV_ERROR,
+      SEG_EV_ERROR + "        self.activate(when)\n        self._ev[\"segment_time\"] = when - self._ev[\"active_time\"]\n", None),
+    M("benign-deliver-event-computes-segment-time", STATUS,
+      "        self._ev[\"segment_start\"] = start\n",
+      "        self._ev[\"segment_start\"] = start\n        self._ev[\"segment_time\"] = when - self._ev[\"active_time\"]\n", None),
+    M("benign-error-segment-time-and-loops-activate", STATUS, SEG_EV_ERROR,
+      SEG_EV_ERROR + "        self._ev[\"segment_time\"] = when - self._ev[\"active_time\"]\n", None,
+      edits=[(NODE, "            seg_ev.error(now())\n", "            seg_ev.activate(now())\n            seg_ev.error(now())\n"),
+             (NODE, "                    seg_ev.error(when)\n", "                    seg_ev.activate(when)\n                    seg_ev.error(when)\n")]),
+    M("benign-error-segment-time-and-loops-shield-status-call", STATUS, SEG_EV_ERROR,
+      SEG_EV_ERROR + "        self._ev[\"segment_time\"] = when - self._ev[\"active_time\"]\n", None,
+      edits=[(NODE, "            seg_ev.error(now())\n",
+              "            try:\n                seg_ev.error(now())\n            except Exception:\n                log.err()\n"),
+             (NODE, "                    seg_ev.error(when)\n",
+              "                    try:\n                        seg_ev.error(when)\n                    except Exception:\n"
+              "                        log.err()\n")]),
+    M("error-segment-time-and-only-one-loop-activates", STATUS, SEG_EV_ERROR,
+      SEG_EV_ERROR + "        self._ev[\"segment_time\"] = when - self._ev[\"active_time\"]\n", "C46.10",
+      edits=[(NODE, "            seg_ev.error(now())\n", "            seg_ev.activate(now())\n            seg_ev.error(now())\n")]),
+    M("error-segment-time-and-loop-shields-call-and-firing-together", STATUS, SEG_EV_ERROR,
+      SEG_EV_ERROR + "        self._ev[\"segment_time\"] = when - self._ev[\"active_time\"]\n", "C46.10",
+      edits=[(NODE, "            seg_ev.error(now())\n            eventually(self._deliver, d, c, f)\n",
+              "            try:\n                seg_ev.error(now())\n                eventually(self._deliver, d, c, f)\n"
+              "            except Exception:\n                log.err()\n"),
+             (NODE, "                    seg_ev.error(when)\n",
+              "                    try:\n                        seg_ev.error(when)\n                    except Exception:\n"
+              "                        log.err()\n")]),
 ]
